@@ -2,7 +2,7 @@
 From Coq Require Import List Arith NArith Bool Lia Sorting.Sorted.
 Import ListNotations.
 Require Import MayV.Rt.TimerThread MayV.Rt.TimerThreadInv MayV.Rt.TimerThreadTac.
-Open Scope N_scope.
+Local Open Scope N_scope.
 
 Lemma presB_tnow s x s' : InvB s -> stepF s x = Some s' -> tnow s' <= now s'.
 Proof.
